@@ -56,6 +56,7 @@ class Engine:
         self.prove_timeout = int(opts.get("prove_timeout_ms", 10000))
         self.seed = int(opts.get("seed", 0))
         self.no_witness = bool(opts.get("no_witness"))
+        self.rlimit_per_ms = int(opts.get("rlimit_per_ms", 4000))
         self.cvc5_budget = int(opts.get("cvc5_recheck", 0))
         if self.seed:
             self.solver.set("random_seed", self.seed % (2**31))
@@ -88,6 +89,8 @@ class Engine:
     def _check(self, extra, timeout):
         t = time.time()
         self.solver.set("timeout", timeout)
+        # resource limit as well: unlike the wall-clock timeout it is honoured inside nlsat
+        self.solver.set("rlimit", int(timeout) * self.rlimit_per_ms)
         if extra:
             self.solver.push()
             self.solver.add(*extra)
@@ -397,6 +400,10 @@ class Engine:
                     s.set("random_seed", seed)
                     s.set("smt.arith.random_initial_value", True)
                 s.set("timeout", self.prove_timeout)
+                try:
+                    s.set("rlimit", int(self.prove_timeout) * self.rlimit_per_ms)
+                except z3.Z3Exception:
+                    pass
                 s.add(*asserts)
                 s.add(goal)
                 r = s.check()
@@ -436,6 +443,7 @@ class Engine:
             try:
                 s = z3.Solver()
                 s.set("timeout", max(2000, self.prove_timeout // 3))
+                s.set("rlimit", max(2000, self.prove_timeout // 3) * self.rlimit_per_ms)
                 s.add(*asserts)
                 s.add(goal)
                 s.add(*pins)
@@ -1134,7 +1142,11 @@ class SR:
         if z3.is_rational_value(s):
             f = float(Fraction(s.numerator_as_long(), s.denominator_as_long()))
             return math.sqrt(f)
-        key = ("sqrt", s.get_id())
+        try:
+            canon = z3.simplify(self.e, som=True, sort_sums=True, flat=True)
+        except z3.Z3Exception:
+            canon = s
+        key = ("sqrt", canon.sexpr() if len(str(canon)) < 4000 else s.get_id())
         eng = E()
         r = eng.apps.get(key)
         if r is None:
